@@ -11,6 +11,7 @@
 #include <map>
 #include <memory>
 #include <set>
+#include <sstream>
 #include <string>
 #include <vector>
 
@@ -78,6 +79,7 @@ struct EdgeSlot {
     bool oracle = true;         // false: model has no opinion on contents
     MEDDLY::dd_edge* e = nullptr;
     uint64_t born = 0;          // step at which the function was obtained
+    int id = 0;                 // stable name for traces
 };
 
 struct IterSlot {
@@ -146,6 +148,9 @@ class World {
         bool characteristic = false;   // profile's "non-trivial" condition
         int cur_step = -1;
         std::string cur_family;
+        std::ostringstream desc;        // human-readable account of the current step (trace / replay files)
+        std::vector<std::string> story; // one line per executed step
+        bool tracing = false;
 
         // options
         bool full_audit = true;         // run I3/I4/I5 after every step
@@ -192,6 +197,10 @@ class World {
 
         // slot management
         EdgeSlot* newEdge(int client, int forest);
+        int next_edge_id = 1;
+        std::string fn(int fi) const;               // "F2<MTbool rel red=2>"
+        std::string en(const EdgeSlot &e) const;    // "e7@F2"
+
         void dropEdge(size_t idx);
         std::vector<size_t> edgesWhere(
                 const std::function<bool(const EdgeSlot&)> &pred) const;
